@@ -1,5 +1,6 @@
 import ZapVerif.Model.Console
 import ZapVerif.Proofs.EntryWF
+import ZapVerif.Proofs.Spaced
 /-! # C16 — console encoder lines have the documented shape with a valid JSON context -/
 namespace ZapVerif.C16
 open ZapVerif ZapVerif.Esc ZapVerif.Json ZapVerif.Enc ZapVerif.Entry ZapVerif.Console
@@ -65,6 +66,17 @@ theorem ctx_compact_is_tree (ctx : List (List Field)) (fields : List Field) :
     (outO false true (ctx.flatMap addFields ++ addFields fields)).1 ++
       List.replicate (outO false true (ctx.flatMap addFields ++ addFields fields)).2 125 =
     memOut true (denO (ctx.flatMap addFields ++ addFields fields)) := outO_den _ true
+
+/-- the context object is valid JSON and holds exactly the fields the JSON encoder emits: reading
+    `{` context `}` back (one optional blank after `,` and `:`) yields the tree `denO` of the same calls — the
+    tree C02 proves the JSON encoder's line decodes to for its fields part — in order, at the same nesting -/
+theorem ctx_valid (ctx : List (List Field)) (fields : List Field)
+    (hc : ∀ fs ∈ ctx, ∀ f ∈ fs, FieldOK f) (hf : ∀ f ∈ fields, FieldOK f) :
+    parseV (sizeT (T.obj (denTO (ctx.flatMap addFields ++ addFields fields))))
+        (123 :: (contextBytes ctx fields ++ [125])) =
+      some (J.obj (denO (ctx.flatMap addFields ++ addFields fields)), []) := by
+  rw [ctx_is_json_ctx ctx fields hc hf]
+  exact spaced_object_parses _ (WFo_append _ _ (ctx_good ctx hc).1 (addFields_good fields hf).1)
 
 /-- non-vacuity: a line with two columns, a message and one field -/
 example :
